@@ -47,20 +47,53 @@ def fit_params(cname, x, start=None, fixed=None):
     return {k: float(v) for k, v in obj.parameters.items()}
 
 
+def constrained_reference(cname, x, fixed_vals, th0):
+    """independent constrained maximum of virocon's own likelihood over the free parameters (Nelder-Mead from th0)"""
+    from scipy.optimize import minimize
+    free = [p for p in D.FAMS[cname]["params"] if p not in fixed_vals]
+
+    def nll(v):
+        th = dict(fixed_vals, **dict(zip(free, v)))
+        try:
+            l = loglik(cname, th, x)
+        except Exception:  # noqa
+            return 1e300
+        return -l if np.isfinite(l) else 1e300
+    r = minimize(nll, [th0[p] for p in free], method="Nelder-Mead", options={"xatol": 1e-10, "fatol": 1e-10, "maxiter": 4000})
+    return dict(fixed_vals, **dict(zip(free, [float(v) for v in r.x]))), -float(r.fun)
+
+
 def oracle_fixed(case):
-    """a subset of the parameters fixed AT THE GENERATING VALUES: the generating parameters are feasible, so the constrained fit
-    (at most two free parameters) must not have lower likelihood than they have"""
+    """a subset of the parameters fixed.  (a) fixed AT THE GENERATING VALUES: the generating parameters are feasible, so the
+    constrained fit (at most two free parameters) must not have lower likelihood than they have.  (b) fixed at OFFSET values,
+    user start values = an independently computed constrained optimum: the fit must not lose likelihood against its start."""
     cname, th, n, seed = case["cls"], case["theta"], case["n"], case["seed"]
     x = np.asarray(D.get_class(cname)(**th).draw_sample(n, random_state=seed), dtype=float)
-    fx = {"f_" + p: th[p] for p in case["fixed"]}
+    fvals = {p: case.get("offset", {}).get(p, th[p]) for p in case["fixed"]}
+    fx = {"f_" + p: v for p, v in fvals.items()}
     sig = {"cls": cname, "fixed": "+".join(sorted(case["fixed"]))}
+    start = None
+    if case.get("offset"):
+        sig["offset"] = True
+        ref, ll_ref = constrained_reference(cname, x, fvals, dict(th, **fvals))
+        if not np.isfinite(ll_ref) or ll_ref < -1e200:
+            return None
+        start = {p: ref[p] for p in ref if p not in fvals}
     try:
-        fit = fit_params(cname, x, None, fx)
+        fit = fit_params(cname, x, start, fx)
     except Exception as e:  # noqa
         return (dict(sig, clause="fit-exception", exc=type(e).__name__), "fit with %r raised %s: %s" % (fx, type(e).__name__, str(e)[:100]))
     if not all(np.isfinite(v) for v in fit.values()):
         return (dict(sig, clause="nonfinite"), "fitted parameters not finite: %r" % fit)
-    ll_fit, ll_true = loglik(cname, fit, x), loglik(cname, th, x)
+    ll_fit = loglik(cname, fit, x)
+    if case.get("offset"):
+        ll_start = loglik(cname, ref, x)
+        if ll_fit < ll_start - (1e-3 + 1e-6 * abs(ll_fit)):
+            return (dict(sig, clause="loses-vs-start"),
+                    "%s(%s, start %r).fit(x): log-likelihood %.6f at the fitted parameters %r < %.6f at the start parameters"
+                    % (cname, ", ".join("%s=%r" % kv for kv in fx.items()), start, ll_fit, fit, ll_start))
+        return None
+    ll_true = loglik(cname, th, x)
     if ll_fit < ll_true - (1e-3 + 1e-6 * abs(ll_fit)):
         return (dict(sig, clause="loses-vs-true"),
                 "%s(%s).fit(x): log-likelihood %.6f at the fitted parameters %r < %.6f at the generating parameters %r (which satisfy the fixed values)"
@@ -218,6 +251,13 @@ def run(ctx):
             for sub in itertools.combinations(ps, k):
                 for rep in range(ctx.n(1, 4)):
                     fcases.append({"cls": cname, "theta": regular_params(rng, cname), "fixed": list(sub), "n": rng.choice([100, 300, 1000]), "seed": rng.randrange(10 ** 6)})
+                    th = regular_params(rng, cname)
+                    off = {}
+                    for p in sub:   # a prescribed value away from the generating one (location parameters shifted, positive ones scaled)
+                        off[p] = th[p] + rng.choice([-1, 1]) * rng.uniform(0.3, 1.0) if p in ("mu", "gamma") and cname != "LogNormalDistribution" else th[p] * rng.choice([0.6, 0.8, 1.3, 1.7])
+                    if cname == "WeibullDistribution" and "gamma" in off:
+                        off["gamma"] = max(0.0, min(off["gamma"], 0.5 * th["gamma"]))   # the location must stay below the data
+                    fcases.append({"cls": cname, "theta": th, "fixed": list(sub), "offset": off, "n": rng.choice([100, 300, 1000]), "seed": rng.randrange(10 ** 6)})
     for c in fcases:
         ctx.count((c["cls"], tuple(c["fixed"]), c["seed"]), True)
         try:
